@@ -199,9 +199,10 @@ ADDENDA = {
     'C07': ' Also: C07.no_overdraw (amounts taken from a stack are bounded by it), C07.available (per-player steps and fold/check/bring-in are refused '
            'only for reasons the phase-end condition knows), C07.phase_check, the street closed only where chips pushing begins.',
     'C08': ' Also: every public verifier asks its phase verifier first; the operation itself neither raises nor warns.',
+    'C11': ' Also: pot-limit semantics (pot-sized raise over bets + every collected pot, rake included); a side pot is halved only over hand types one of its own contenders holds.',
     'C12': ' Also: C12.show_flags (exactly the named cards are face up).',
     'C14': ' Also: board_dealing_count / verify_board_dealing (which board is dealt next).',
-    'C15': ' Also: no field stores a closure / lambda / bound method / partial over the instance; contents of the BetCollection and HoleDealing records.',
+    'C15': ' Also: no field stores a closure / lambda / bound method / partial over the instance; contents of the BetCollection and HoleDealing records; a logged unknown card handed back at replay is a value (absence is tested with `is None`).',
     'C16': ' Also: every written action text compared part by part (f-strings included); parse_value reads back what dumps writes.',
     'C18': ' Also: per-sample isolation (copies), disjoint distribution of the drawn cards, mapper choice, number of opponents, statistics sources.',
     'C19': ' Also: the number / mapping / iterable arms reject nothing.',
